@@ -13,6 +13,7 @@ CONSTANTS
   MaxRecs = 2
   MaxStale = 1
   MaxCollide = 0
+  Rebinds = FALSE
   MidEnv = FALSE
 VIEW view
 CONSTRAINT Bounded
